@@ -32,7 +32,13 @@ MANIFEST = dict(
          "sorted[:-1]) + 1], or sorter[mask] with a mask that is true at position 0 and at value changes). Paths of a scanning function that return "
          "a computed array before the loop are decided the same way and removed from the scan's view. Run boundaries must come from comparing "
          "neighbouring values; a sign / zero test of their arithmetic difference is accepted only on paths whose dtype.kind tests restrict the "
-         "elements to kinds for which it is exact (ordered test: unsigned, float; zero test: integers).",
+         "elements to kinds for which it is exact (ordered test: unsigned, float; zero test: integers). Helpers reached through a local name or a "
+         "module-level dispatch table that is only ever read are inlined; putmask / place / put / copyto(where=) are in-place stores; a[argsort(a)[-1]] "
+         "is max(a); a search result handed to a call without a model gives no verdict instead of 'unclamped'. A scan may walk the sorter / the sorted "
+         "values themselves (for ind, v in zip(s[1:], a[s][1:])) when all sequences start at the same sorted position and run to the end. A function "
+         "of the form `if c: <loop-free arm> else: <scan>` is decided as two functions; the loop-free flagged form is decided on terms: run-start mask "
+         "M over the sorted values, maximum.reduceat(flag[s], where(M)) per run, candidates flag[s] == runmax[cumsum(M)-1], the first candidate of "
+         "every run, mapped through the sorter, on paths that restrict the flag kind to types without NaN.",
     note="Not decided: completeness for all arrays (numpy.searchsorted/argsort/unique semantics trusted); NaN handling.",
     technique="static analysis: path-wise symbolic execution to normalised terms (match, vectorised unique), index-space typing over "
               "expression descriptors with CFG control dependence (scan loops)",
@@ -222,6 +228,13 @@ def t_take(base, idx):
         n = len(base) - 1
         if -n <= idx[1] < n:
             return base[1:][idx[1]]
+    if h == "dict" and is_const(idx):
+        for k, v in base[1]:
+            try:
+                if k[1] == idx[1]:
+                    return v
+            except Exception:
+                break
     if h == "shape" and idx == K(0):
         return t_size(base[1])
     if h == "argsort" and idx == ("argsort", base):
@@ -420,14 +433,17 @@ class Frame:
 
 
 _IDENT_NP = ("asarray", "asanyarray", "array", "ascontiguousarray")
+_INPLACE_NP = ("putmask", "place", "put", "copyto")
 _ARRAYISH = ("a1d", "asarr", "argsort", "ss", "clamp", "where0", "take", "alloc", "arr", "concat", "setitem", "unique")
 
 
 class SX:
     MAXPATHS = 400
 
-    def __init__(self, funcs, keep_calls=(), stop_at_loops=False):
+    def __init__(self, funcs, keep_calls=(), stop_at_loops=False, consts=None):
         self.funcs = funcs              # module-level name -> ast.FunctionDef
+        self.consts = consts or {}      # module-level name bound once, at module level -> the expression it is bound to
+        self._constbusy = set()
         self.keep_calls = set(keep_calls)   # module functions that are not inlined
         self.stop_at_loops = stop_at_loops  # a path ends (kind 'loop') where it reaches a loop statement of the function itself
         self.reset([])
@@ -658,6 +674,14 @@ class SX:
                 return NP
             if e.id in self.funcs:
                 return ("func", e.id)
+            if e.id in self.consts and e.id not in self._constbusy:
+                # a module-level constant (dispatch table, cached value): what it was built from
+                self._constbusy.add(e.id)
+                try:
+                    v = self.ev(self.consts[e.id], Frame())
+                finally:
+                    self._constbusy.discard(e.id)
+                return v if v[0] in ("dict", "func", "const", "tuple") else ("global", e.id)
             return ("global", e.id)
         if isinstance(e, ast.Attribute):
             b = self.ev(e.value, fr)
@@ -708,6 +732,10 @@ class SX:
             ref = self._ev_ref(e.value, fr)
             fr.env[e.target.id] = ref
             return self.heap[ref]
+        if isinstance(e, ast.Dict) and all(k is not None for k in e.keys):
+            ks = [self.ev(k, fr) for k in e.keys]
+            if all(is_const(k) for k in ks) and len({k[1] for k in ks}) == len(ks):
+                return ("dict", tuple(zip(ks, [self.ev(v, fr) for v in e.values])))
         if isinstance(e, (ast.JoinedStr, ast.Dict, ast.Set, ast.Lambda, ast.ListComp, ast.SetComp, ast.DictComp, ast.GeneratorExp, ast.FormattedValue)):
             return ("opaque", norm(e))
         raise Unsupported("%s at line %d" % (type(e).__name__, getattr(e, "lineno", 0)))
@@ -724,8 +752,13 @@ class SX:
         kw = {k.arg: self.ev(k.value, fr) for k in e.keywords}
         if isinstance(f, ast.Attribute):
             b = self.ev(f.value, fr)
+            if b == NP and f.attr in _INPLACE_NP:
+                r = self.np_inplace(f.attr, args, arefs, kw, e)
+                if r is not None:
+                    return r
             if b == NP:
                 r = self.np_call(f.attr, args, dict(kw), e)
+                self._escape(r, args, kw, e)
                 out = krefs.get("out")
                 if "out" in kw and kw["out"] != NONE:
                     if out is None:
@@ -734,19 +767,60 @@ class SX:
                     self.events.append(("store", r, e.lineno, self._seq()))
                 return r
             bref = fr.env[f.value.id] if isinstance(f.value, ast.Name) and f.value.id in fr.env else None
-            return self.method_call(b, bref, f.attr, args, kw, e)
-        if isinstance(f, ast.Name):
+            r = self.method_call(b, bref, f.attr, args, kw, e)
+            self._escape(r, args, kw, e)
+            return r
+        if isinstance(f, ast.Name) and f.id not in fr.env:
             n = f.id
-            if n in fr.env:
-                return ("call", ("local", n), tuple(args), tuple(sorted(kw.items())))
             if n in self.funcs:
-                if n == "unique" and len(args) == 1 and not kw:
-                    return ("unique", _unperm(args[0]))          # the package's own unique: one index per distinct value
-                if n in self.keep_calls or self.depth >= 3:
-                    return ("call", n, tuple(args), tuple(sorted(kw.items())))
-                return self.inline(self.funcs[n], args, arefs, kw, krefs, e)
-            return self.builtin(n, args, kw, e)
-        return ("call", ("expr", norm(f)), tuple(args), tuple(sorted(kw.items())))
+                return self.call_func(n, args, arefs, kw, krefs, e)
+            r = self.builtin(n, args, kw, e)
+            self._escape(r, args, kw, e)
+            return r
+        # a callee that is a value: a local bound to a module function, an entry of a dispatch table, ...
+        fv = self.ev(f, fr)
+        if fv[0] == "func" and fv[1] in self.funcs:
+            return self.call_func(fv[1], args, arefs, kw, krefs, e)
+        r = ("call", ("local", f.id) if isinstance(f, ast.Name) else ("expr", norm(f)), tuple(args), tuple(sorted(kw.items())))
+        self._escape(r, args, kw, e)
+        return r
+
+    def call_func(self, n, args, arefs, kw, krefs, e):
+        if n == "unique" and len(args) == 1 and not kw:
+            return ("unique", _unperm(args[0]))          # the package's own unique: one index per distinct value
+        if n in self.keep_calls or self.depth >= 3:
+            r = ("call", n, tuple(args), tuple(sorted(kw.items())))
+        else:
+            r = self.inline(self.funcs[n], args, arefs, kw, krefs, e)
+        self._escape(r, args, kw, e)
+        return r
+
+    def _escape(self, r, args, kw, e):
+        """a call this executor has no model for received a search result: it may have changed it in place"""
+        if isinstance(r, tuple) and r and r[0] in ("call", "mcall"):
+            for a in list(args) + list(kw.values()):
+                if a[0] in ("ss", "clamp", "setitem", "badclamp") or (a[0] == "take" and _gathered(a)[1] is not None):
+                    self.events.append(("escape", a, e.lineno, self._seq(), show(r[1]) if r[0] == "call" else r[2]))
+
+    def np_inplace(self, name, args, arefs, kw, e):
+        """numpy functions that write into their first argument: putmask(a, mask, v) / place(a, mask, v) are a[mask] = v, put(a, ind, v) is
+        a[ind] = v for a 1-d a, copyto(a, v, where=mask) is a[mask] = v"""
+        idx = val = None
+        kw = dict(kw)
+        if name in ("putmask", "place", "put") and len(args) + len(kw) == 3:
+            names = {"putmask": ("mask", "values"), "place": ("mask", "vals"), "put": ("ind", "v")}[name]
+            rest = list(args[1:]) + [kw.pop(k, None) for k in names[len(args) - 1:]]
+            if len(args) >= 1 and len(rest) == 2 and None not in rest and not kw:
+                idx, val = rest
+        elif name == "copyto" and len(args) == 2 and set(kw) <= {"where", "casting"} and "where" in kw:
+            idx, val = kw["where"], args[1]
+        if idx is None or not is_scalar(val):
+            return None
+        if not arefs or arefs[0] is None:
+            raise Unsupported("np.%s into something that is not a local name at line %d" % (name, e.lineno))
+        self.heap[arefs[0]] = t_setitem(self.heap[arefs[0]], idx, val)
+        self.events.append(("store", self.heap[arefs[0]], e.lineno, self._seq()))
+        return NONE
 
     def inline(self, fn, args, arefs, kw, krefs, e):
         if any(isinstance(x, (ast.For, ast.While, ast.Try, ast.With, ast.Yield, ast.YieldFrom)) for x in walk_no_nested(fn)):
@@ -923,6 +997,27 @@ class RawModule:
         self.path = self.info.path
         self.tree = ast.parse(self.info.src, filename=self.path)
         self.defs = {n.name: n for n in self.tree.body if isinstance(n, ast.FunctionDef)}
+        # names bound exactly once in the module, by a plain top-level assignment, and never declared global in a function
+        count, val = {}, {}
+        for n in ast.walk(self.tree):
+            if isinstance(n, ast.Name) and isinstance(n.ctx, (ast.Store, ast.Del)):
+                count[n.id] = count.get(n.id, 0) + 1
+            elif isinstance(n, ast.Global):
+                for g in n.names:
+                    count[g] = count.get(g, 0) + 2
+        for n in self.tree.body:
+            if isinstance(n, ast.Assign) and len(n.targets) == 1 and isinstance(n.targets[0], ast.Name):
+                val[n.targets[0].id] = n.value
+        self.consts = {k: v for k, v in val.items() if count.get(k) == 1 and k not in self.defs}
+        # a mutable table counts as constant only when every use of its name is a read `NAME[key]` (no store, no method call, no alias)
+        mutable = {k for k, v in self.consts.items() if not isinstance(v, (ast.Constant, ast.Name, ast.Attribute, ast.Tuple))}
+        reads = set()
+        for n in ast.walk(self.tree):
+            if isinstance(n, ast.Subscript) and isinstance(n.ctx, ast.Load) and isinstance(n.value, ast.Name):
+                reads.add(id(n.value))
+        for n in ast.walk(self.tree):
+            if isinstance(n, ast.Name) and isinstance(n.ctx, ast.Load) and n.id in mutable and id(n) not in reads:
+                self.consts.pop(n.id, None)
 
     def func(self, name):
         if name not in self.defs:
@@ -1195,12 +1290,15 @@ def fact_kind(t, v, a1, a2, pres):
                     return "nonempty1+nonempty2"
                 return "other"
         m1, m2 = ("max", a1), ("max", a2)
+        # the largest element read off the sort order: a[argsort(a)[-1]] (a[-1] when the caller declared the array sorted) is max(a)
+        last = [("take", a, ("take", ("argsort", a), K(-1))) for a in (a1, a2)]
+        l, r = (m1 if x == last[0] or (pres and x == ("take", a1, K(-1))) else (m2 if x == last[1] else x) for x in (l, r))
         if {l, r} == {m1, m2}:
             if (op == "lt" and l == m1 and not v) or (op == "le" and l == m2 and v) or (op == "le" and l == m1 and not v) or (op == "lt" and l == m2 and v):
                 return "noexceed"
             return "other"
-        if any(x[0] in ("dtype", "isinstance", "max", "min") for x in (l, r)):
-            return "other"
+        if any(x[0] in ("dtype", "isinstance", "max", "min") or (x[0] == "attr" and x[2] == "ndim") for x in (l, r)):
+            return "other"          # a test on the element type / the number of dimensions / extreme values: none of the guards
         if not contains(t, a1) and not contains(t, a2):
             return "other"
         return None
@@ -1244,7 +1342,7 @@ def match_rules(chk, mod):
     a1, a2 = ("a1d", ("param", p1)), ("a1d", ("param", p2))
     V = Verdicts()
     for pres in (False, True):
-        sx = SX(mod.defs)
+        sx = SX(mod.defs, consts=mod.consts)
         try:
             paths = sx.run(fn, {flag: K(pres)} if flag else {})
         except Unsupported as e:
@@ -1261,7 +1359,7 @@ def match_rules(chk, mod):
     chk.analysed_unit(mm.qualname)
     ok = None
     try:
-        paths = [p for p in SX(mod.defs, keep_calls=("match",)).run(mm.node, {}) if p.kind == "return"]
+        paths = [p for p in SX(mod.defs, keep_calls=("match",), consts=mod.consts).run(mm.node, {}) if p.kind == "return"]
         want = tuple(("param", x) for x in mm.params[:2])
         ok = bool(paths) and all(p.value[0] == "call" and p.value[1] == "match" and p.value[2][:2] == want for p in paths)
     except Unsupported:
@@ -1423,8 +1521,13 @@ def _match_path(V, fi, p, pres, a1, a2):
             V.add("clamp-guard" + tag, True, "the clamp is skipped only when no element of the second array can exceed the first array's maximum", w)
         else:
             unk = [t for t, v, k in kinds if k is None]
-            V.add(kc, None if unk else False, mc + ("; not understood: %s" % short(unk[0]) if unk else
-                                                  "; the path returning at line %d uses the unclamped search result" % p.line), w)
+            esc = [e for e in p.events if e[0] == "escape" and contains(e[1], p0)]
+            if esc:
+                V.add(kc, None, mc + "; the search result is handed to `%s` at line %d, which this check has no model for (it may clamp in place)"
+                      % (esc[0][4], esc[0][2]), w)
+            else:
+                V.add(kc, None if unk else False, mc + ("; not understood: %s" % short(unk[0]) if unk else
+                                                      "; the path returning at line %d uses the unclamped search result" % p.line), w)
 
 
 # ---------------------------------------------------------------------------
@@ -1433,6 +1536,12 @@ def _match_path(V, fi, p, pres, a1, a2):
 def dedup_rules(chk, mod, fi, narr):
     loops = [x for x in walk_no_nested(fi.node) if isinstance(x, (ast.For, ast.While, ast.AsyncFor))]
     if loops:
+        split = _fast_split(fi.node)
+        if split is not None:
+            # `if <cond>: <loop-free computation> else: <scan>`: every execution runs one of the two arms, so the function is decided as two
+            # functions -- the one with the loop-free arm on the terms it returns, the one with the scan by the scan rules
+            _fast_path(chk, mod, fi, narr, split)
+            fi = FuncInfo(fi.qualname, fi.module, None, _without(fi.node, [split]), fi.path)
         early = _early_exits(fi.node)
         if early:
             # paths that return an array computed without entering the scan are decided on the returned term; the scan rules then look at
@@ -1485,6 +1594,35 @@ def _early_exits(fn):
     return out
 
 
+def _fast_split(fn):
+    """(index in fn.body, arm) of the first top-level `if` that holds the scan loop in one arm and a loop-free computation in the other"""
+    for k, st in enumerate(fn.body):
+        if isinstance(st, ast.If):
+            lb, lo = _has_loop(st.body), _has_loop(st.orelse)
+            if lb != lo:
+                fast = st.orelse if lb else st.body
+                if fast and _computes(fast) and not _has_loop(fn.body[:k] + fn.body[k + 1:]):
+                    return (k, "orelse" if lb else "body")
+            if lb or lo:
+                return None
+        elif _has_loop([st]):
+            return None
+    return None
+
+
+def _fast_variant(fn, split):
+    """copy of fn in which the arm with the scan is replaced by a `raise`: its returning paths are the executions that take the loop-free arm"""
+    fn = copy.deepcopy(fn)
+    k, arm = split
+    st = fn.body[k]
+    stop = ast.copy_location(ast.Raise(exc=ast.copy_location(ast.Name(id="_ScanArmNotTaken", ctx=ast.Load()), st), cause=None), st)
+    if arm == "body":
+        st.orelse = [stop]
+    else:
+        st.body = [stop]
+    return fn
+
+
 def _without(fn, early):
     """copy of fn in which each early-exit `if` is replaced by its other arm (what the paths that go on to the loop execute)"""
     fn = copy.deepcopy(fn)
@@ -1510,7 +1648,7 @@ def _early_paths(chk, mod, fi, narr, early):
     V = Verdicts()
     for vals in (False, True):
         try:
-            paths = SX(mod.defs, stop_at_loops=True).run(fi.node, {vflag: K(vals)} if vflag else {})
+            paths = SX(mod.defs, stop_at_loops=True, consts=mod.consts).run(fi.node, {vflag: K(vals)} if vflag else {})
         except Unsupported as e:
             chk.ob("R06.1", q + "::recognised", None, fi.where(fi.node.body[early[0][0]]),
                    "%s returns before its scan on some paths; they could not be executed symbolically (%s)" % (fi.name, e))
@@ -1531,6 +1669,51 @@ def _early_paths(chk, mod, fi, narr, early):
     V.emit(chk, "R06.1", q)
 
 
+def _fast_path(chk, mod, fi, narr, split):
+    q = fi.qualname + "::fast-path"
+    node = fi.node.body[split[0]]
+    fn = _fast_variant(fi.node, split)
+    a = ("param", fi.params[0])
+    fl = ("param", fi.params[1]) if narr == 2 else None
+    vflag = "values" if "values" in fi.params else (fi.params[narr] if len(fi.params) > narr else None)
+    V = Verdicts()
+    for vals in (False, True):
+        try:
+            paths = SX(mod.defs, consts=mod.consts).run(fn, {vflag: K(vals)} if vflag else {})
+        except Unsupported as e:
+            chk.ob("R06.1", q + "::recognised", None, fi.where(node),
+                   "%s has a loop-free arm beside its scan; it could not be executed symbolically (%s)" % (fi.name, e))
+            return
+        rets = [p for p in paths if p.kind == "return" and p.line >= node.lineno]
+        V.add("returns[values=%s]" % vals, bool(rets) or None, "the loop-free arm has a returning path", fi.where(node))
+        for p in rets:
+            w = "%s:%s" % (fi.where().rsplit(":", 1)[0], p.line)
+            _vector_result(V, p, a, fl, w)
+        if not vflag:
+            break
+    V.emit(chk, "R06.1", q)
+
+
+def _vector_result(V, p, a, fl, w):
+    """one returning path of a loop-free de-duplication: the index array it returns, alone or beside / instead of the values at those indices"""
+    r = p.value
+    if r[0] == "tuple" and len(r) == 3:
+        idx = [x for x in r[1:] if not (x[0] == "take" and x[1] == a)]
+        vals = [x for x in r[1:] if x[0] == "take" and x[1] == a]
+        if len(idx) == 1 and len(vals) == 1:
+            V.add("values-at-returned-indices", vals[0][2] == idx[0] or None, "the values returned beside the indices are the input at exactly those indices", w)
+            r = idx[0]
+    elif r[0] == "take" and r[1] == a:
+        r = r[2]                 # the values at the kept indices
+    while r[0] == "sorted":
+        r = r[1]                 # the kept indices in ascending order: the same set of indices
+    if fl is None:
+        _vector_kept(V, r, a, w)
+        boundary_tests(V, r, a, p.facts, w)
+    else:
+        _vector_flagged(V, r, a, fl, p.facts, w)
+
+
 # -- loop-free (vectorised) form: decided on the terms of the returned arrays --------------------------------------------------
 def _vector_dedup(chk, mod, fi, narr):
     q = fi.qualname
@@ -1542,7 +1725,7 @@ def _vector_dedup(chk, mod, fi, narr):
     V = Verdicts()
     for vals in (False, True):
         try:
-            paths = SX(mod.defs).run(fi.node, {vflag: K(vals)} if vflag else {})
+            paths = SX(mod.defs, consts=mod.consts).run(fi.node, {vflag: K(vals)} if vflag else {})
         except Unsupported as e:
             chk.ob("R06.1", q + "::recognised", None, fi.where(), "%s could not be executed symbolically (%s)" % (fi.name, e))
             return
@@ -1815,6 +1998,7 @@ class Scan:
         self.loop = None
         self.counter = None
         self.start = None
+        self.loopvars = {}      # loop variable -> descriptor, for scans that walk the sorter / the sorted values themselves
         # single-definition temporaries are substituted forward, except index containers (their identity matters: they are stored into)
         self.sd = {k: v for k, v in rules.single_defs(self.fn).items()
                    if not ((isinstance(v, ast.Call) and (_cname(v) in _ALLOC or (_cname(v) == "list" and not v.args))) or isinstance(v, ast.List))}
@@ -1856,7 +2040,7 @@ class Scan:
             it = self.X(lp.iter)
             if not (isinstance(lp.target, ast.Name) and isinstance(it, ast.Call) and _cname(it) in ("range", "xrange", "arange") and 1 <= len(it.args) <= 2
                     and not it.keywords):
-                return "the loop is not a counted loop over range(...)"
+                return self.parallel_loop(lp, it)
             self.counter = lp.target.id
             self.start = 0 if len(it.args) == 1 else (it.args[0].value if isinstance(it.args[0], ast.Constant) else None)
             self.bound = it.args[-1]
@@ -1889,6 +2073,85 @@ class Scan:
                 self.start = None if self.start is None else self.start + 1
             elif uses and not inc.lineno > max(uses):
                 return "the counter is advanced in the middle of the loop body"
+        return None
+
+    def parallel_loop(self, lp, it):
+        """a scan that walks the sorted order itself instead of counting positions: `for ind in s[1:]`, `for ind, v in zip(s[1:], a[s][1:])`,
+        `for p, v in enumerate(a[s][1:], 1)`, `for p, ind in zip(range(1, n), s[1:])`.  Every sequence walked must be the sorter, an input gathered
+        through the sorter, or range(), all starting at the same sorted position and running to the end; the loop variables then are the input
+        index / the value / the position of the *current* sorted position"""
+        no = "the loop is neither a counted loop over range(...) nor a walk over the sorter / the sorted values from one common start to the end"
+        seqs = []           # (target node, iterable expr)
+        first = None        # start position declared by enumerate
+
+        def pairs(target, e):
+            if isinstance(e, ast.Call) and _cname(e) == "zip" and isinstance(e.func, ast.Name) and not e.keywords and isinstance(target, (ast.Tuple, ast.List)) \
+                    and len(target.elts) == len(e.args):
+                return all(pairs(t, a) for t, a in zip(target.elts, e.args))
+            if isinstance(target, ast.Name):
+                seqs.append((target, e))
+                return True
+            return False
+
+        if isinstance(it, ast.Call) and _cname(it) == "enumerate" and isinstance(it.func, ast.Name) and isinstance(lp.target, (ast.Tuple, ast.List)) \
+                and len(lp.target.elts) == 2 and isinstance(lp.target.elts[0], ast.Name) and 1 <= len(it.args) + len(it.keywords) <= 2 and it.args:
+            st = it.args[1] if len(it.args) == 2 else (it.keywords[0].value if it.keywords and it.keywords[0].arg == "start" else None)
+            if it.keywords and st is None:
+                return no
+            first = 0 if st is None else (st.value if isinstance(st, ast.Constant) and isinstance(st.value, int) else None)
+            if first is None:
+                return no
+            if not pairs(lp.target.elts[1], it.args[0]):
+                return no
+        elif not pairs(lp.target, it):
+            return no
+        if not seqs:
+            return no
+        starts = set()
+        lv = {}
+        for target, e in seqs:
+            lo = 0
+            if isinstance(e, ast.Subscript) and isinstance(e.slice, ast.Slice):
+                sl = e.slice
+                if sl.step is not None or sl.upper is not None:
+                    return no
+                if sl.lower is not None:
+                    if not (isinstance(sl.lower, ast.Constant) and isinstance(sl.lower.value, int) and sl.lower.value >= 0):
+                        return no
+                    lo = sl.lower.value
+                e = e.value
+            if isinstance(e, ast.Call) and _cname(e) in ("range", "xrange") and isinstance(e.func, ast.Name) and len(e.args) == 2 and not e.keywords \
+                    and isinstance(e.args[0], ast.Constant) and isinstance(e.args[0].value, int) and lo == 0:
+                if self.D(e.args[1]) != ("size", ("in", self.key)):
+                    return no           # zip stops with its shortest sequence
+                lo, d = e.args[0].value, ("pos", "cur")
+            else:
+                b = self.D(e)
+                if b == ("sorter",):
+                    d = ("idx", "cur")
+                elif b[0] == "sv":
+                    d = ("val", b[1], "cur")
+                else:
+                    return no
+            starts.add(lo)
+            if target.id in lv or len(self.defs.get(target.id, [])) != 1:
+                return no
+            lv[target.id] = d
+        if first is not None:
+            # enumerate(seq[k:], k): the counter is the sorted position only when it starts where the sequence starts
+            c = lp.target.elts[0].id
+            if c in lv or len(self.defs.get(c, [])) != 1:
+                return no
+            lv[c] = ("pos", "cur")
+            starts.add(first)
+        if len(starts) != 1:
+            return no + " (the sequences start at different positions: %s)" % sorted(starts)
+        if not any(d[0] in ("idx", "val") for d in lv.values()):
+            return no
+        self.loopvars = lv
+        self.counter = None
+        self.start = starts.pop()
+        self.bound = None
         return None
 
     # -- state variables -----------------------------------------------------
@@ -1941,6 +2204,8 @@ class Scan:
                 return ("in", e.id)
             if e.id == self.counter:
                 return ("pos", "cur")
+            if e.id in self.loopvars:
+                return self.loopvars[e.id]
             c = self.cls(e.id)
             if c == ("pos",):
                 return ("pos", ("var", e.id))
@@ -2392,3 +2657,75 @@ def _size_one_guard(sc, st, ctrl):
                 if {a, b} == {("size", ("in", sc.key)), ("lit", 1)}:
                     return True
     return False
+
+
+def _first_of_runs_mask(m, x, monotone):
+    """m is a boolean array with one entry per entry of the sequence x (as given), true at entry 0 and at every entry k >= 1 with
+    x[k] != x[k-1] (x[k-1] < x[k] says the same when x is known to be non-decreasing): the first entry of every run of equal values"""
+    if not isinstance(m, tuple) or not m:
+        return False
+    nxt, prv = t_take(x, SL_NEXT), t_take(x, SL_PREV)
+    change = [t_cmp("ne", nxt, prv)] + ([t_cmp("lt", prv, nxt)] if monotone else [])
+    if m[0] == "concat" and len(m) == 3:
+        first = m[1][1] if m[1][0] == "arr" else m[1]
+        return first in (("list", K(True)), ("tuple", K(True))) and m[2] in change
+    t = m
+    stores = {}
+    while t[0] == "setitem":
+        stores.setdefault(t[2], t[3])        # outermost = latest store wins
+        t = t[1]
+    sizes = [t_size(x)]
+    if x[0] == "take" and not is_indexlike(x[2]) and x[2][0] in ("cmp", "and", "or", "inv"):
+        sizes.append(t_size(("where0", x[2])))          # y[mask] has as many entries as where(mask)[0]
+    if t[0] != "alloc" or _alloc_n(t) not in sizes or not set(stores) <= {K(0), SL_NEXT} or stores.get(SL_NEXT) not in change:
+        return False
+    return stores.get(K(0)) == K(True) or (K(0) not in stores and t[1] == "ones")
+
+
+_NO_NAN_KINDS = frozenset("biuSU")
+
+
+def _vector_flagged(V, r, a, fl, facts, w):
+    """the loop-free flagged de-duplication: in sorted order, M marks the first entry of every run of equal values; the largest flag of every run
+    is maximum.reduceat(flags in sorted order, run starts); an entry is a candidate when its flag equals the largest flag of its own run
+    (run number = cumsum(M) - 1); exactly one candidate per run is kept, and kept positions are mapped through the sorter"""
+    s = ("argsort", a)
+    sa, sf = t_take(a, s), t_take(fl, s)
+    ki, mi = "returns-Idx", "the returned index array holds input indices (kept sorted positions mapped through the sorter)"
+    if not (r[0] == "take" and r[1] == s):
+        V.add(ki, None, mi + "; found %s" % short(r), w)
+        return
+    V.add(ki, True, mi, w)
+    keep = r[2]
+    kb, mb = "run-boundaries", "runs of equal values are found in sorted order: a run starts at sorted position 0 and wherever a value differs from its predecessor"
+    masks = {t for t in subterms(keep) if _first_of_runs_mask(t, sa, True)}
+    if len(masks) != 1:
+        V.add(kb, None, mb + "; found %d such masks in %s" % (len(masks), short(keep)), w)
+        return
+    V.add(kb, True, mb, w)
+    m0 = next(iter(masks))
+    starts = ("where0", m0)
+    run_id = t_binop("-", ("call", "np.cumsum", (m0,), ()), K(1))
+    runmax = ("mcall", ("npattr", "maximum"), "reduceat", (sf, starts), ())
+    km, mm = "largest-flag-of-each-run", "the largest flag of every run is the maximum of the flags (gathered through the sorter) from one run start up to the next"
+    red = [t for t in subterms(keep) if isinstance(t, tuple) and t and t[0] == "mcall" and t[2] == "reduceat"]
+    if runmax not in red:
+        wrong = [t for t in red if t[1] == ("npattr", "minimum") and t[3] == (sf, starts)]
+        V.add(km, False if wrong else None, mm + ("; found the smallest flag: %s" % short(wrong[0]) if wrong else "; found %s" % short(red[0] if red else keep)), w)
+        return
+    V.add(km, True, mm, w)
+    kinds = element_kinds(facts, fl)
+    ke = "largest-flag-is-attained"
+    me = "the arm is reached only for flag types in which the maximum of a run equals one of its flags (no NaN / NaT: booleans, integers, strings)"
+    V.add(ke, True if kinds is not None and kinds <= _NO_NAN_KINDS else None, me + "; flag kinds on this path: %s"
+          % ("not understood" if kinds is None else "".join(sorted(kinds))), w)
+    kc, mc = "kept-position-carries-largest-flag", "a position is a candidate when its flag equals the largest flag of its own run (run number = cumsum(run starts) - 1)"
+    ismax = t_cmp("eq", sf, t_take(runmax, run_id))
+    cand = ("where0", ismax)
+    if not (keep[0] == "take" and keep[1] == cand):
+        V.add(kc, None, mc + "; found %s" % short(keep), w)
+        return
+    V.add(kc, True, mc, w)
+    ko, mo = "one-kept-per-run", "exactly one candidate of every run is kept: the first one, found where the run number of a candidate differs from that of the candidate before"
+    V.add(ko, True if _first_of_runs_mask(keep[2], t_take(run_id, cand), True) else None, mo + ("" if _first_of_runs_mask(keep[2], t_take(run_id, cand), True)
+                                                                                         else "; found %s" % short(keep[2])), w)
